@@ -14,6 +14,7 @@ import Mfi.Lemmas.AccL
 import Mfi.Model.Risk
 import Mfi.Props.C09
 import Mfi.Lemmas.WorldL
+import Mfi.Lemmas.WorldRecvL
 
 namespace Mfi.Props.C10
 open Mfi Mfi.Tx Mfi.Gen
@@ -569,6 +570,88 @@ theorem world_receivership_admits_only_withdraw_and_repay (c : Ctx) (hr : flag c
     · have : flag c ACCOUNT_IN_RECEIVERSHIP = false := h1
       simp [hr] at this
     · exact h1
+
+/-! ### the receivership bracket inside whole TRANSACTIONS of the world state machine (Mfi/Model/WorldTx.lean)
+
+The transactions are lists of whole instructions (withdraw, repay, … with the account checks, gates, accrual, books and risk
+engine of `Mfi.World`), flash-loan starts / ends and liquidation starts / ends, executed atomically; the health valuations are
+the risk-engine model's own. (`start_deleverage` / `end_deleverage` are not in this machine: their function-level model and the
+raw transaction shapes above cover them.) -/
+
+/-- **world_start_liquidation_spec**: `start_liquidation` goes through only with the account's own liquidation record, on an
+    account not already in receivership (nor in a flash loan, nor disabled: regenerated table), when `start_receivership` accepts
+    the portfolio as stored (the account is NOT healthy at maintenance level) and the transaction has the bracket shape; it
+    records the receiver named, snapshots the valuation and sets the marker. -/
+theorem world_start_liquidation_spec {c : RCtx} {shape : Res Unit} {o : StartLiqOut} (h : startLiquidation c shape = .ok o) :
+    c.recordOk = true ∧ inRecv c.a = false ∧ shape = .ok () ∧
+    (∃ ps, c.portfolio = .ok ps ∧ Mfi.Risk.startReceivership ps false = .ok o.cache) ∧
+    o.flags = c.a.flags ||| ACCOUNT_IN_RECEIVERSHIP.toNat ∧ o.receiver = c.receiver :=
+  startLiquidation_ok h
+
+/-- the shape a start accepts, on transactions of the world machine: the start is the FIRST instruction and the only start, the
+    LAST instruction is an end_liquidation, nothing but start, end, withdraw and repay appears, and the start is not last -/
+theorem world_liquidation_shape {tx : List TOp} {cur : Nat} (h : liqShape tx cur = .ok ()) :
+    ∃ t0 rest, tx = t0 :: rest ∧ isStartLiq t0 = true ∧ rest.any isStartLiq = false ∧
+      ((tx.getLast?).map isEndLiq).getD false = true ∧ tx.all liqAllowed = true ∧ cur < tx.length - 1 :=
+  liqShape_ok h
+
+/-- **world_end_liquidation_spec**: `end_liquidation` goes through only with the account's own record, on an account IN
+    receivership, signed by the receiver the record names, with the fee state's own wallet, at top level, when
+    `Risk.endLiquidation` accepts the portfolio as it stands against the record's snapshot; it clears the marker. -/
+theorem world_end_liquidation_spec {c : RCtx} {stack : Nat} {o : EndLiqOut} (h : endLiquidation c stack = .ok o) :
+    c.recordOk = true ∧ inRecv c.a = true ∧ c.a.recReceiver = c.receiver ∧ c.walletOk = true ∧ stack = 1 ∧
+    (∃ ps, c.portfolio = .ok ps ∧ Mfi.Risk.endLiquidation c.a.recCache ps c.feeMax = .ok (o.seized, o.repaid)) ∧
+    hasFlag o.flags ACCOUNT_IN_RECEIVERSHIP = false := by
+  obtain ⟨h1, h2, h3, h4, h5, h6, h7⟩ := endLiquidation_ok h
+  exact ⟨h1, h2, h3, h4, h5, h6, by rw [h7]; exact recv_clear _⟩
+
+/-- no whole instruction and no flash-loan instruction puts an account into receivership -/
+theorem world_instruction_starts_no_receivership (w : WState) (op : WOp) : NoNewP inRecv w (w.step op) := step_noNewRecv w op
+
+/-- **world_tx_no_receivership_survives**: a COMMITTED transaction of the world machine leaves no account in receivership
+    (when none was before it) … -/
+theorem world_tx_no_receivership_survives {w w' : WState} {tx : List TOp} (h : w.runTx tx = some w')
+    (h0 : ∀ (k : Nat) (a : AcctV), w.accts[k]? = some a → inRecv a = false) :
+    ∀ (k : Nat) (a : AcctV), w'.accts[k]? = some a → inRecv a = false :=
+  runTx_noRecv h h0
+
+/-- … and so over every sequence of transactions, committed or rolled back: control never survives a transaction -/
+theorem world_txs_no_receivership_survives (txs : List (List TOp)) (w : WState)
+    (h0 : ∀ (k : Nat) (a : AcctV), w.accts[k]? = some a → inRecv a = false) :
+    ∀ (k : Nat) (a : AcctV), (w.runTxs txs).accts[k]? = some a → inRecv a = false :=
+  runTxs_noRecv txs w h0
+
+/-- **world_tx_liquidation_cannot_worsen_health**: a committed transaction that opens with `start_liquidation` of account `a0`
+    naming receiver `r`: the account's maintenance health on the state the transaction FOUND was not positive; the transaction's
+    last instruction is the `end_liquidation` of the same account, signed by `r`; and on the state the bracket LEFT — whatever the
+    withdrawals and repayments in between did — the maintenance health is no worse than on the state found, and (unless the
+    assets were worth under five dollars at the start) not positive, with the value seized (fall of the equity-valued assets
+    between the two states) at most the value repaid (fall of the equity-valued liabilities) times 1 + max(configured, 5 %). -/
+theorem world_tx_liquidation_cannot_worsen_health {w w' : WState} {tx : List TOp} (h : w.runTx tx = some w')
+    (h0 : ∀ (k : Nat) (a : AcctV), w.accts[k]? = some a → inRecv a = false)
+    {a0 r : Nat} {ok : Bool} (hs : tx[0]? = some (.startLiq a0 r ok)) :
+    ∃ (a : AcctV) (ps0 : List Mfi.Risk.Pos) (m0 e0 : Mfi.Risk.Comps), w.accts[a0]? = some a ∧
+      (w.rctx a ok r true 0).portfolio = .ok ps0 ∧
+      Mfi.Risk.components ps0 .maint = .ok m0 ∧ Mfi.Risk.components ps0 .equity = .ok e0 ∧ m0.assets - m0.liabs ≤ 0 ∧
+      ∃ (signer : Nat) (rok wok : Bool) (feeMax : Int), tx[tx.length - 1]? = some (.endLiq a0 signer rok wok feeMax) ∧ signer = r ∧
+        ∃ (wl : WState) (al : AcctV) (psl : List Mfi.Risk.Pos) (ml el : Mfi.Risk.Comps), wl.accts[a0]? = some al ∧
+          (wl.rctx al rok signer wok feeMax).portfolio = .ok psl ∧
+          Mfi.Risk.components psl .maint = .ok ml ∧ Mfi.Risk.components psl .equity = .ok el ∧
+          m0.assets - m0.liabs ≤ ml.assets - ml.liabs ∧
+          (5 * Mfi.Fx.ONE ≤ e0.assets →
+            ml.assets - ml.liabs ≤ 0 ∧
+            e0.assets - el.assets ≤ Mfi.Fx.wrap (((e0.liabs - el.liabs) * Mfi.Risk.maxPremium feeMax) / Mfi.Fx.ONE)) := by
+  obtain ⟨a, ps0, cache, ha, hps0, hcache, signer, rok, wok, feeMax, hlast, hsig, wl, al, psl, seized, repaid, hal, hpsl, hend⟩ :=
+    tx_liquidation_closed h h0 hs
+  obtain ⟨m0, e0, hm0, he0, hneg, ecache⟩ := start_only_when_unhealthy hcache
+  obtain ⟨ml, el, hml, hel, hworse, hsz, hrp, hfive⟩ := end_liquidation_spec hend
+  subst ecache
+  refine ⟨a, ps0, m0, e0, ha, hps0, hm0, he0, hneg, signer, rok, wok, feeMax, hlast, hsig, wl, al, psl, ml, el, hal, hpsl, hml, hel, hworse, ?_⟩
+  intro h5
+  obtain ⟨p1, p2⟩ := hfive h5
+  refine ⟨p1, ?_⟩
+  rw [hsz, hrp] at p2
+  exact p2
 
 end whole_instructions
 
